@@ -224,7 +224,7 @@ def build(d, route="event", rng=None, lambda_backend=True, order=None):
         single = len(p["trans"]) == 1
         r = route
         if route == "mixed":
-            r = ["event", "legacy", "incremental", "event_tr"][int(rng.integers(0, 4))]
+            r = ["event", "legacy", "incremental", "event_tr", "event_tr", "incr_legacy", "incr_tr", "event_solo"][int(rng.integers(0, 8))]
         if r == "legacy" and single:
             tr = p["trans"][0]
             if tr["ty"] == "T":
@@ -234,7 +234,23 @@ def build(d, route="event", rng=None, lambda_backend=True, order=None):
         elif r == "event_tr" and single:
             # a Transition carrying its own rate wrapped in an Event without rate
             ev_objs.append((p["_idx"], pg.Event(transition_list=[mk_tr(p["trans"][0], p["rate"])])))
-        elif r == "incremental":
+        elif r == "event_tr":
+            # several transitions, exactly one of which carries the rate; the Event is given none
+            j = int(rng.integers(0, len(p["trans"])))
+            ev_objs.append((p["_idx"], pg.Event(transition_list=[mk_tr(t, p["rate"] if i == j else None)
+                                                                 for i, t in enumerate(p["trans"])])))
+        elif r == "event_solo" and single:
+            # a solitary Transition handed to Event without a list around it
+            ev_objs.append((p["_idx"], pg.Event(transition_list=mk_tr(p["trans"][0]), rate=p["rate"])))
+        elif r == "incr_legacy" and single:
+            # add_transition / add_birth_death after construction
+            tr = p["trans"][0]
+            incr.append((p["_idx"], ("T" if tr["ty"] == "T" else "BD",
+                                     mk_tr(tr, p["rate"], birth_by_origin=bool(tr["ty"] == "B" and rng.random() < 0.5)))))
+        elif r == "incr_tr" and single:
+            # add_event given a Transition that carries its own rate
+            incr.append((p["_idx"], mk_tr(p["trans"][0], p["rate"])))
+        elif r in ("incremental", "incr_legacy", "incr_tr"):
             incr.append((p["_idx"], pg.Event(rate=p["rate"], transition_list=[mk_tr(t) for t in p["trans"]])))
         else:
             ev_objs.append((p["_idx"], pg.Event(rate=p["rate"], transition_list=[mk_tr(t) for t in p["trans"]])))
@@ -245,6 +261,8 @@ def build(d, route="event", rng=None, lambda_backend=True, order=None):
     m = pg.model(lambda_backend=lambda_backend, **kw)
     for kind, o in incr:
         if kind == "ode": m.add_ode(o)
+        elif isinstance(o, tuple) and o[0] == "T": m.add_transition(o[1])
+        elif isinstance(o, tuple): m.add_birth_death(o[1])
         else: m.add_event(o)
     order_out = [k for k, _ in ev_objs] + [k for k, _ in tr_objs] + [k for k, _ in bd_objs] + \
                 [k for k, _ in incr if k != "ode"]
